@@ -15,7 +15,8 @@ RULE = ("Post-conditions on multipitch.metrics / evaluate / compute_num_true_"
         "accuracy <= min(precision, recall), the same for the chroma seven; per "
         "frame TP <= min(#ref, #est) and chroma TP >= raw TP; every resampled frame "
         "is the estimate frame nearest in time (linear scan) and reference times "
-        "outside the estimate's range get an empty frame. Workload: ragged frames "
+        "outside the estimate's range get an empty frame; metrics() must call the "
+        "resampler whenever the two time bases clearly differ. Workload: ragged frames "
         "incl. empty frames, all-empty sides, single frames, differing time bases, "
         "references beyond both ends of the estimate, octave errors, duplicates "
         "within a frame, windows 0.25/0.5/1. Non-trivial = distinct input with >= 1 "
@@ -67,10 +68,11 @@ class Frame:
 
 def install(ctx, mods):
     mp = mods["multipitch"]
-    state = {"tp": None}
+    state = {"tp": None, "resampled": 0}
 
     def pre_metrics(call):
         state["tp"] = []
+        state["resampled"] = 0
 
     def post_tp(call):
         if call.exc is not None:
@@ -106,6 +108,29 @@ def install(ctx, mods):
             _v(ctx, call, "multipitch.metrics", "arity", "expected a 14-tuple")
             return
         ok, rich = check_14(ctx, call, "multipitch.metrics", v)
+        # "when the estimate's time base differs from the reference's it is
+        # resampled": judged only when the bases differ by far more than any
+        # closeness test could forgive (a tenth of the smallest hop, >= 1 ms)
+        try:
+            bb = call.bound()
+            rt = np.asarray(bb["ref_time"], dtype=float)
+            et = np.asarray(bb["est_time"], dtype=float)
+        except Exception:
+            rt = et = None
+        if rt is not None and rt.ndim == 1 and et.ndim == 1 and rt.size and et.size:
+            differs = rt.size != et.size
+            if not differs and rt.size:
+                hop = float(np.min(np.diff(rt))) if rt.size > 1 else 1.0
+                differs = float(np.max(np.abs(rt - et))) > max(1e-3, 0.1 * hop) \
+                    and float(np.max(np.abs(rt - et))) > 1e-4 * (1 + float(np.max(np.abs(rt))))
+            if differs:
+                ctx.count("contract.resampled_when_bases_differ")
+                if not state["resampled"]:
+                    _v(ctx, call, "multipitch.metrics", "time-bases-differ-not-resampled",
+                       "reference and estimate time bases differ (sizes %d/%d, max "
+                       "difference %r) but resample_multipitch was not called" % (
+                           rt.size, et.size,
+                           float(np.max(np.abs(rt - et))) if rt.size == et.size else None))
         raw = [t for t in tps if not t[0]]
         chroma = [t for t in tps if t[0]]
         if len(raw) == 1 and len(chroma) == 1:
@@ -171,6 +196,8 @@ def install(ctx, mods):
                "E_sub %r E_miss %r E_fa %r E_tot %r" % (es, em, ef, et))
 
     def post_resample(call):
+        if call.parent == "multipitch.metrics":
+            state["resampled"] += 1
         if call.exc is not None:
             return
         c = call.case()
@@ -265,6 +292,7 @@ def finalize(m, tier):
     for k in ("contract.multipitch.metrics", "contract.multipitch.evaluate",
               "contract.compute_num_true_positives", "contract.compute_accuracy",
               "contract.compute_err_score", "contract.resample_multipitch",
-              "contract.chroma_ge_raw", "resample.reference_times_outside_estimate"):
+              "contract.chroma_ge_raw", "resample.reference_times_outside_estimate",
+              "contract.resampled_when_bases_differ"):
         if c.get(k, 0) == 0:
             m["inconclusive"].append("never observed: %s" % k)
